@@ -1,6 +1,7 @@
 import JsonVerif.Lemmas.Run
 import JsonVerif.Lemmas.Steps
 import JsonVerif.Model.Entry
+import JsonVerif.Lemmas.Hub
 /-!
 # C01 — Strict acceptance: a text parses iff it is valid RFC 8259 JSON (valid UTF-8)
 
@@ -37,6 +38,26 @@ theorem C01_slice_eq_str (o : ParseOptions) (b : List UInt8) (h : (utf8Dec b).2 
 theorem C01_accept_consumes_all (o : ParseOptions) (cs : List Char) (v : JValue) (s' : PS)
     (h : run o [] none { rest := cs, bad := false, pos := 0, cm := #[] } = .ok (v, s')) :
     s'.rest = [] := (run_ok h).2.1
+
+/-- **Strict acceptance is exactly RFC 8259** (`GDoc`, Spec/Grammar.lean: `ws value ws`, the ABNF
+    transcribed production by production, `\u` escapes read as UTF-16): the string entry point
+    accepts a text if and only if it is a JSON-text. Both directions, every text, no bound. -/
+theorem C01_accepts_iff_rfc8259 (cs : List Char) :
+    (∃ r, parseStr ⟨false, false⟩ cs = .ok r) ↔ ∃ v, GDoc cs v := accepts_iff cs
+
+/-- … and the byte entry point accepts exactly the well-formed UTF-8 encodings of JSON-texts. -/
+theorem C01_slice_accepts_iff (b : List UInt8) :
+    (∃ r, parseSlice ⟨false, false⟩ b = .ok r) ↔ (utf8Dec b).2 = false ∧ ∃ v, GDoc (utf8Dec b).1 v := by
+  constructor
+  · rintro ⟨r, h⟩
+    cases hb : (utf8Dec b).2 with
+    | true => exact absurd h (C01_illformed_rejected _ b r hb)
+    | false =>
+      rw [C01_slice_eq_str _ b hb] at h
+      exact ⟨rfl, (accepts_iff _).mp ⟨r, h⟩⟩
+  · rintro ⟨hb, hv⟩
+    rw [C01_slice_eq_str _ b hb]
+    exact (accepts_iff _).mpr hv
 
 /-! Non-vacuity -/
 example : isOk (parseStr ⟨false, false⟩ " {\"a\" : [1, -0.5e+3, true, null, \"\\u00e9\"]} ".toList) = true := by
